@@ -4,9 +4,13 @@ Independent of the reference interpreter: decisions are taken from the
 recorded *results* of a group's setup phases and from the event log
 (start / end of generated phase bodies, plug tearDown, callbacks).
 
-Shape assumption (guaranteed by the C03/C04 generators): the setup and the
-teardown list of every group start with at least one direct phase; setup lists
-contain only phases, without run_if.
+Shape assumption (guaranteed by the C03/C04 generators): the teardown list of
+every judged group starts with at least one direct phase and setup lists
+contain only phases.  A setup phase whose run_if is the constant False is a
+no-op; one whose run_if raises is reached when the predicate was evaluated and
+ends the setup.  A group without (effective) setup phases counts as entered
+once one of its main phases was started or had its run_if evaluated (nothing
+is concluded about it otherwise).
 """
 from vf import progmodel as pm
 
@@ -40,6 +44,7 @@ def groups(prog):
             'following_direct': later + siblings_after,
             'subtest': ctx_sub, 'in_td': in_td,
             'td_opts': {x[1]: x[2] for x in t if x[0] == 'P'},
+            'setup_opts': {x[1]: x[2] for x in s if x[0] == 'P'},
             'teardown_nodes': t,
         }
         yield from rec(s, ctx_sub, in_td, [])
@@ -57,7 +62,7 @@ def groups(prog):
   yield from rec(prog, None, False, [])
 
 
-def judge(prog, obs, allow_missing_following=False):
+def judge(prog, obs, allow_missing_following=False, sof=False):
   """Returns (violations, counters).  obs needs 'events' and 'phases'."""
   ev = obs['events']
   recs = obs['phases']
@@ -66,6 +71,7 @@ def judge(prog, obs, allow_missing_following=False):
        'groups_unreached': 0, 'groups_dont_care': 0,
        'teardown_phases_judged': 0}
   starts = {}
+  run_if_seen = {e[3] for e in ev if e[2] == 'run_if'}
   first_start = {}
   last_end = {}
   hung = set()
@@ -94,28 +100,36 @@ def judge(prog, obs, allow_missing_following=False):
       viol.append({'mechanism': mech, 'detail': d})
 
   for g in groups(prog):
-    if not g['setup'] or not g['teardown_direct'] or not g['setup_all_phases']:
+    if not g['teardown_direct'] or not g['setup_all_phases']:
       continue
+    setup_eff = [x for x in g['setup']
+                 if g['setup_opts'][x].get('run_if') is not False]
+    if not setup_eff:
+      touched = [p for p in g['main_all'] if starts.get(p) or p in run_if_seen]
+      if not touched:
+        continue
+      s0 = 'no-setup:' + (g['main_all'] + g['teardown_all'])[0]
+    else:
+      s0 = setup_eff[0]
     c['groups_judged'] += 1
-    s0 = g['setup'][0]
     inside = g['setup'] + g['main_all'] + g['teardown_all']
-    if s0 not in rec_idx:
+    if setup_eff and s0 not in rec_idx and s0 not in run_if_seen:
       c['groups_unreached'] += 1
       ran = [p for p in inside if starts.get(p)]
       if ran:
         bad('unreached-group-ran-phases', group=s0, ran=ran[:4])
       continue
-    first = rec_idx[s0][0]
     sub = g['subtest']
     failed_before = False
-    if sub is not None:
+    if sub is not None and setup_eff and s0 in rec_idx:
+      first = rec_idx[s0][0]
       failed_before = any(r[2] == 'FAIL_SUBTEST' and r[3] == sub
                           for r in recs[:first])
       if recs[first][1] == 'SKIP' and recs[first][2] == 'SKIP' and not starts.get(s0):
         failed_before = True
     complete = True
     setup_fail_subtest = False
-    for s in g['setup']:
+    for s in setup_eff:
       if s not in rec_idx or not starts.get(s):
         complete = False
         continue
@@ -124,6 +138,8 @@ def judge(prog, obs, allow_missing_following=False):
         setup_fail_subtest = True
       elif last[2] not in NON_TERMINAL:
         complete = False
+      elif sof and last[1] == 'FAIL':
+        complete = False     # stop_on_first_failure turns the failure into a STOP
     if g['in_td'] and (failed_before or setup_fail_subtest) and complete:
       c['groups_dont_care'] += 1
       continue
@@ -133,7 +149,7 @@ def judge(prog, obs, allow_missing_following=False):
       ran = [p for p in g['main_all'] + g['teardown_all'] if starts.get(p)]
       if ran:
         bad('group-not-entered-but-main-or-teardown-ran', group=s0,
-            ran=ran[:4], setup=[recs[rec_idx[s][-1]][:3] for s in g['setup']
+            ran=ran[:4], setup=[recs[rec_idx[s][-1]][:3] for s in setup_eff
                                 if s in rec_idx])
       continue
     c['groups_entered'] += 1
@@ -143,8 +159,8 @@ def judge(prog, obs, allow_missing_following=False):
     for t in g['teardown_direct']:
       c['teardown_phases_judged'] += 1
       n = starts.get(t, 0)
-      if (g['td_opts'][t].get('run_if') is False):
-        continue
+      if g['td_opts'][t].get('run_if') not in (None, True):
+        continue     # the predicate decides (False) or ends this node (raises)
       trecs = [recs[i] for i in rec_idx.get(t, [])]
       if n > 1 and n == len(trecs) and all(r[2] == 'REPEAT' for r in trecs[:-1]):
         n = 1    # one execution of the node; the body asked to be repeated
@@ -209,9 +225,10 @@ def judge(prog, obs, allow_missing_following=False):
         elif mine[0][1] == 'SKIP':
           bad('teardown-checkpoint-skipped', group=s0, checkpoint=n[1])
       elif k == 'G':
-        first_setup = [x[1] for x in n[1] if x[0] == 'P'][:1]
-        if first_setup and first_setup[0] not in rec_idx:
-          bad('teardown-subgroup-not-reached', group=s0, subgroup=first_setup[0])
+        head = n[1][0] if n[1] else None
+        if (head and head[0] == 'P' and head[2].get('run_if') is None and
+            head[1] not in rec_idx):
+          bad('teardown-subgroup-not-reached', group=s0, subgroup=head[1])
 
     if not obs.get('second_abort'):
       for tn in g['teardown_nodes']:
